@@ -5,6 +5,7 @@
 //!   harness <component> gen <seed> <tier> <outdir>   writes <outdir>/ops.txt, gen_stats.json
 //!   harness <component> run <opsfile> <outdir>       writes <outdir>/impl.txt, oracle.txt
 mod checksum;
+mod path;
 mod rng;
 mod segments;
 mod util;
@@ -32,6 +33,7 @@ fn main() {
             match comp {
                 "segments" => segments::gen(seed, tier, &mut w, &mut stats),
                 "checksum" => checksum::gen(seed, tier, &mut w, &mut stats),
+                "path" => path::gen(seed, tier, &mut w, &mut stats),
                 _ => panic!("unknown component {comp}"),
             }
             w.flush().unwrap();
@@ -46,6 +48,7 @@ fn main() {
             match comp {
                 "segments" => segments::run(&ops, &mut out, &mut orc),
                 "checksum" => checksum::run(&ops, &mut out, &mut orc),
+                "path" => path::run(&ops, &mut out, &mut orc),
                 _ => panic!("unknown component {comp}"),
             }
             out.flush().unwrap();
